@@ -459,7 +459,7 @@ class Run:
         out = {}
         for deme, dc in c.items():
             nm = dc.features.nbc_mean_distance
-            out[deme.id] = {"inds": [ind_t(i) for i in dc.individuals], "nbc_mean": (None if nm is None else float(nm))}
+            out[deme.id] = {"inds": [ind_t(i) for i in dc.individuals], "nbc_mean": (None if (nm is None or nm != nm) else float(nm))}  # NaN -> None
         return out
 
     def _wrap_mechanism(self, sm):
@@ -713,6 +713,16 @@ def monitored_run(spec, pids):
     return run, res
 
 
+def corpus_specs():
+    """minimised past failures / false alarms: they run first in every batch"""
+    import os
+
+    p = os.path.join(os.path.dirname(os.path.dirname(os.path.abspath(__file__))), "corpus", "specs.jsonl")
+    if not os.path.exists(p):
+        return []
+    return [json.loads(l)["spec"] for l in open(p) if l.strip()]
+
+
 def monitor_batch(ctx, pid, n, salt=11, name=None, force=None, also=()):
     """run `n` random configurations under the monitors of `pid`; returns a Slice"""
     from .common import Slice
@@ -720,8 +730,9 @@ def monitor_batch(ctx, pid, n, salt=11, name=None, force=None, also=()):
     sl = Slice(name or f"traced-runs-monitor-{pid}")
     sl.is_trace = True
     rng = ctx.rng(salt)
-    for i in range(n):
-        spec = rand_spec(rng, **(force(rng) if callable(force) else (force or {})))
+    todo = corpus_specs() + [None] * n
+    for i, cs in enumerate(todo):
+        spec = cs if cs is not None else rand_spec(rng, **(force(rng) if callable(force) else (force or {})))
         try:
             run, res = monitored_run(spec, {pid, *also})
         except Exception as e:  # the run itself crashed: report, with the spec as replay
